@@ -36,7 +36,9 @@ def _alarm(*_a):
 
 def init_worker(mem_gb=4):
     lim = mem_gb << 30
-    resource.setrlimit(resource.RLIMIT_AS, (lim, lim))
+    _soft, hard = resource.getrlimit(resource.RLIMIT_AS)
+    # soft limit only, so that child processes (the JVM in replay mode) can lift it again
+    resource.setrlimit(resource.RLIMIT_AS, (lim if hard == resource.RLIM_INFINITY else min(lim, hard), hard))
     signal.signal(signal.SIGALRM, _alarm)
     sys.setrecursionlimit(10000)
 
